@@ -108,7 +108,12 @@ void Proto::onRecvJson(const Json &js)
                 return;
             }
             util::json::GetField(js, "id", id);
-            recv_request_cb_(id, method, js.contains("params") ? js["params"] : Json());
+            //! 注意：不能写成 cond ? js["params"] : Json()，那样会整个拷贝一份params，
+            //! 而 Json 的拷贝是递归的，对端发来深层嵌套的params会耗尽调用栈
+            if (js.contains("params"))
+                recv_request_cb_(id, method, js["params"]);
+            else
+                recv_request_cb_(id, method, Json());
 
         } else if (js.contains("result")) {
             //! 按结果回复进行处理
